@@ -41,6 +41,19 @@ func genC20(seed int64, tier string) *Plan {
 			}
 		}
 	}
+	// a second collection with the same field names, written now and then (own stream of choices): its
+	// documents are no results of a subscription to User
+	if ro := newRng(seed, 202); chance(ro, 35) {
+		p.Cfg["other"] = 1
+		var steps []Step
+		for _, st := range p.Steps {
+			steps = append(steps, st)
+			if st.K != "fault" && chance(ro, 25) {
+				steps = append(steps, Step{K: "pet", A: ro.IntN(3), B: ro.IntN(64), C: ro.IntN(64)})
+			}
+		}
+		p.Steps = steps
+	}
 	// a subscriber that leaves before step leaveat-1 (own stream of choices)
 	if rl := newRng(seed, 201); chance(rl, 50) && len(p.Steps) > 2 {
 		p.Cfg["leaveat"] = 1 + rl.IntN(len(p.Steps))
@@ -111,6 +124,13 @@ func runC20(p *Plan, res *Result) {
 		return
 	}
 	n := w.n
+	if p.cfg("other", 0) == 1 {
+		if _, err := n.DB.AddSchema(n.reqCtx(), "type Pet {\n  name: String\n  age: Int\n}\n"); err != nil {
+			w.fail("AddSchema Pet: %v", err)
+			return
+		}
+	}
+	var petIDs []string
 	// extra bus subscribers
 	var recs []*busRecorder
 	for i := 1; i < p.cfg("subs", 1); i++ {
@@ -200,6 +220,24 @@ func runC20(p *Plan, res *Result) {
 		what := ""
 		midTxnEvents := 0
 		switch s.K {
+		case "pet":
+			what = "other-collection-write"
+			var q string
+			switch {
+			case s.A == 0 || len(petIDs) == 0:
+				q = fmt.Sprintf(`mutation { create_Pet(input: {name: "pet%d", age: %d}) { _docID } }`, i, 20+mod(s.B, 8))
+			case s.A == 1:
+				q = fmt.Sprintf(`mutation { update_Pet(docID: %q, input: {age: %d}) { _docID } }`, petIDs[mod(s.B, len(petIDs))], 20+mod(s.C, 8))
+			default:
+				q = fmt.Sprintf(`mutation { delete_Pet(docID: %q) { _docID } }`, petIDs[mod(s.B, len(petIDs))])
+			}
+			data, errs := n.GQL(q)
+			if len(errs) > 0 {
+				callErr = fmt.Errorf("%v", errs)
+			} else if rs := rows(data, "create_Pet"); len(rs) == 1 {
+				petIDs = append(petIDs, fmt.Sprint(rs[0]["_docID"]))
+			}
+			res.Stats["writes_to_another_collection"]++
 		case "op":
 			ac := buildCall(Step{K: "call", A: s.A, B: s.B, C: s.C, D: s.D}, w.env)
 			what = ac.Kind
@@ -345,8 +383,19 @@ func runC20(p *Plan, res *Result) {
 		// (4) GraphQL subscription: one result per committed change that matches its filter
 		wantSub := 0
 		uncertain := 0
+		userDocs := map[string]bool{}
+		if ud, errs := n.GQL(`query { User(showDeleted: true) { _docID } }`); len(errs) == 0 {
+			for _, row := range rows(ud, "User") {
+				userDocs[fmt.Sprint(row["_docID"])] = true
+			}
+		}
 		for _, c := range newCommits {
 			if c.docID == "" {
+				continue
+			}
+			if !userDocs[c.docID] {
+				// a document of another collection is no result of a subscription to User
+				res.Stats["commits_of_other_collections"]++
 				continue
 			}
 			if c.del {
